@@ -62,18 +62,22 @@ the receive queue; here it is evaluated on the example run only.
   which case `willSendAbort` or `panicked` is up afterwards.
 `LiveDefs.lean` states the premises of one round as the decidable `RoundOk P s` = receiver established ∧ `Room` ∧ `InSync` (the
 sender's cumulative ack point is not ahead of the receiver's, and when they coincide the lowest outstanding chunk is not
-gap-acked) ∧ `HeadOk` (no ABORT / panic in answer to the round's first delivery). STILL MISSING, each with the lemma that
-closes it: (a) the glue `RoundOk P s → 0 < outstanding s → Taken P s` — the first `deliver` of the round carries the chunk of
-`C02_netsys_lowest_on_wire` to the state of `C02_netsys_receiver_takes` (`run_acceptAll`, `run_idx_mono`, `sndPre_cumAck`
-are proved; the frame of `chunksStart` / `chunksEnd` around `handleData` and the split `roundOps = firstOps ++ …` are not);
-(b) `Honest ⇒ InSync` as a run invariant (proved towards it: `markGaps_acked` — a chunk acked by the gap loop is named by a
-block —, `gather_ackedFrom` — a gather appends un-acked chunks only; missing: the receiver-side monotonicity "accepted stays
-accepted" over `qrun` and the induction over the run); (c) `Room` after the application has read everything readable from
-`FitsBuffer` (`maxMessageSize ≤ maxReceiveBufferSize`): needs the CONVERSE of `Reasm.OrdInv.pushed` — every pushed fragment of
-a message at or above the cursor is in the table — so that "nothing held above the cumulative point and nothing readable"
-bounds the held bytes by one incomplete message; the same converse gives `reads = writes` at the end (`C02_netsys_all_read`,
-not stated); (d) `HeadOk` from `maxReassemblyQueueEntries = 0` (the per-queue invariant `maxEntries = 0`; `QPres` of
-`Proofs/Receiver/Basic.lean` quantifies over all entry limits and does not apply as it is).
+gap-acked) ∧ `HeadOk` (no ABORT / panic in answer to the round's first delivery).
+
+**Third pass.** (a) The glue is proved: `C02_netsys_roundok_taken` — `RoundOk P s` and something outstanding give `Taken P s`
+(the round's first `deliver` carries exactly the chunk of the sender half into exactly the receiver state of the receiver
+half; afterwards the receiver's cumulative point only moves forward and the round's sender operations do not move the
+cumulative ack point) — and with it `C02_netsys_drains_roundok`: `C02_netsys_drains_partial` with the opaque `TakenN` replaced
+by the four readable per-round premises `RoundOkN` (over `Reliable` runs, which abandon nothing: `noab_of_reliable`).
+(b) `C02_netsys_honest_insync`: for runs whose sender only processed SOUND SACKs (`Honest`) `InSync` holds whenever the receive
+queue is pop-normalised — run invariant `run_hl`: every gap-acked in-flight chunk was really received — and
+`C02_netsys_honest_taken` is the one-round statement with `InSync` gone. STILL OPEN: (b') iterating (b) over the healed
+rounds (the truthful SACK is sound, so `HL` is kept; `step_hl` is the step lemma; not assembled into a `drains_honest`);
+(c) `Room` after the application has read everything readable from `FitsBuffer` (`maxMessageSize ≤ maxReceiveBufferSize`): needs
+the CONVERSE of `Reasm.OrdInv.pushed` — every pushed fragment of a message at or above the cursor is in the table — which
+also gives `reads = writes` at the end (`C02_netsys_all_read`, not stated); (d) `HeadOk` and the pop-normalised queue from
+`maxReassemblyQueueEntries = 0` (per-queue invariant `maxEntries = 0`; `Receiver.QPres` quantifies over all entry limits and does
+not apply as it is) — both fail only after a reassembly error, i.e. when the receiver is about to ABORT.
 
 **NOT covered**: timers really firing and their back-off bounds ("within a few maximum RTOs": C19 gives the RTO clamp
 `C19_rto_clamp`-style bounds and the timer automaton; a healed round costs at most one T3 period ≤ `rtoMax` plus the 200 ms
